@@ -291,13 +291,23 @@ def run(ctx):
                     else:
                         right = Q(special, right.unit)
                     ctx.count("incommensurable_cases_with_nan_or_infinite_magnitudes")
-                opname = rng.choice(["add", "sub", "lt", "le", "gt", "ge", "in_unit", "eq", "ne"])
+                opname = rng.choice(["add", "sub", "lt", "le", "gt", "ge", "in_unit", "eq", "ne", "level", "lt_level", "eq"])
                 ctx.count(f"cells/incommensurable/{opname}")
                 ctx.distinct(("incommensurable", opname, lk, pools.shape_class(lf)))
                 case = {"left": repr(left), "right": repr(right), "op": opname}
                 try:
                     if opname == "in_unit":
                         res = left.in_unit(right.unit)
+                    elif opname in ("level", "lt_level"):
+                        # a level is a conversion into the reference's unit with a logarithm after it: a length has no
+                        # level in decibels above a watt, and does not order against one
+                        lu = rng.choice([m.Decibel, m.Bel, m.Neper])[Q(rng.choice([1, 20, 0.5]), right.unit)]
+                        pos = Q(abs(core.sf(left.magnitude)) or 1.0, left.unit) if core.sf(left.magnitude) == core.sf(left.magnitude) else left
+                        if opname == "level":
+                            res = rng.choice([lambda: pos.level(lu), lambda: lu.level(pos)])()
+                        else:
+                            lv = m.Level(rng.choice([3, 20.0, -6]), lu)
+                            res = rng.choice([lambda: pos < lv, lambda: lv < pos, lambda: pos >= lv, lambda: sorted([pos, lv])])()
                     else:
                         res = getattr(operator, opname)(left, right)
                 except (TypeError, CNF):
